@@ -167,6 +167,48 @@ func c11HistoricStrict(c *Ctx) {
 			continue
 		}
 		g := an.GuardedByValue(an.Edge{From: p, To: H}, func(v ssa.Value) bool { return v == skip }, true)
+		if !g {
+			// the skip is signalled by a helper split out of the loop: "tree, err := helper(…, skipUnreadable);
+			// if tree == nil { continue }" — then the helper returns (nil, nil) only under its own copy of the flag
+			sc := c.Scope(fn)
+			var viaHelper *ssa.Call
+			an.GuardedByNilTest(an.Edge{From: p, To: H}, func(v ssa.Value) bool {
+				if ex, ok := v.(*ssa.Extract); ok && ex.Index == 0 {
+					if cl, ok := ex.Tuple.(*ssa.Call); ok && cl.Call.StaticCallee() != nil && sc.Contains(cl.Call.StaticCallee()) {
+						viaHelper = cl
+						return true
+					}
+				}
+				return false
+			}, true)
+			if viaHelper != nil {
+				h := viaHelper.Call.StaticCallee()
+				var hp *ssa.Parameter
+				for i, a := range viaHelper.Call.Args {
+					if a == ssa.Value(skip) && i < len(h.Params) {
+						hp = h.Params[i]
+					}
+				}
+				if hp != nil {
+					hdead := an.DeadBlocks(h)
+					allGuarded, any := true, false
+					for _, hb := range h.Blocks {
+						ret, ok := hb.Instrs[len(hb.Instrs)-1].(*ssa.Return)
+						if !ok || len(ret.Results) != 2 || !an.IsNilConst(an.RetVal(ret, 0)) || !an.IsNilConst(an.RetErr(ret)) {
+							continue
+						}
+						any = true
+						if hdead[hb] {
+							continue
+						}
+						if !an.GuardedByValue(an.Edge{From: hb}, func(v ssa.Value) bool { return v == ssa.Value(hp) }, true) {
+							allGuarded = false
+						}
+					}
+					g = any && allGuarded
+				}
+			}
+		}
 		c.R.Cond(g, rule, fmt.Sprintf("%s: skip path #%d", name, n), pos, "a version is skipped only when skipUnreadable is true",
 			"a version can be skipped although skipUnreadable is false: opening an explicit version set (s3db_changes, historic open) would succeed with part of the snapshot")
 	}
@@ -301,4 +343,91 @@ func c11EmptyVersion(c *Ctx) {
 func init() {
 	byProp["C11"] = append(byProp["C11"], "C05.snapshot")
 	explain["C11"] += " snapshot (shared with C05): after a commit that failed the rollback restores the pre-transaction tree on every path, so the rows visible on the connection are the rows of the version s3db_version() names."
+}
+
+// ---- C11.created-stamp: every tree handed out by an open is stamped with the open's time -----------
+
+func init() {
+	register(&Rule{Name: "C11.created-stamp", Min: 1, Run: c11CreatedStamp,
+		Doc: "mergeRoots stamps the tree it returns with the time of this open (Created = when), whether it continues one version or merges several"})
+	byProp["C11"] = append(byProp["C11"], "C11.created-stamp")
+	byProp["C10"] = append(byProp["C10"], "C11.created-stamp")
+	byProp["C09"] = append(byProp["C09"], "C11.created-stamp")
+	explain["C11"] += " created-stamp: a version's Created time is what vacuum compares with the cutoff for the versions it superseded; a handle that continues a single version must not inherit that version's stamp, or versions committed long after a cutoff look older than it and are deleted. On every successful path of mergeRoots, after the merge loop, the returned tree's Created is assigned from the parameter 'when' (or the tree is a new empty root built from 'when')."
+}
+
+type stampState bool
+
+func (s stampState) Key() string {
+	if s {
+		return "stamped"
+	}
+	return "-"
+}
+
+func c11CreatedStamp(c *Ctx) {
+	const rule = "C11.created-stamp"
+	fn := mustFunc(c, "kv", "", "mergeRoots")
+	created := mustField(c, "kv/internal/crdt", "Tree", "Created")
+	if fn == nil || created == nil {
+		return
+	}
+	name := core.FuncName(fn)
+	var when *ssa.Parameter
+	for _, p := range fn.Params {
+		if nt := an.NamedOf(p.Type()); nt != nil && nt.Obj().Pkg() != nil && nt.Obj().Pkg().Path() == "time" && nt.Obj().Name() == "Time" {
+			when = p
+		}
+	}
+	if when == nil {
+		c.R.Unk(rule, name+": stamps the tree", c.P.Pos(fn.Pos()), "no time.Time parameter")
+		return
+	}
+	fromWhen := func(v ssa.Value) bool {
+		return an.DependsOn(v, func(x ssa.Value) bool { return x == ssa.Value(when) })
+	}
+	sc := c.Scope(fn)
+	h := an.THooks{Instr: func(in ssa.Instruction, st an.TState) an.TState {
+		s := st.(stampState)
+		if in == in.Block().Instrs[0] && an.InCycle(in.Block()) {
+			s = false // a stamp inside the merge loop is not the final one
+		}
+		switch x := in.(type) {
+		case *ssa.Store:
+			if fa, ok := x.Addr.(*ssa.FieldAddr); ok && an.FieldVar(fa.X.Type(), fa.Field) == created && fromWhen(x.Val) {
+				s = true
+			}
+		case ssa.CallInstruction:
+			if calleeLabel(x) == "emptyRoot" {
+				for _, a := range x.Common().Args {
+					if fromWhen(a) {
+						s = true
+					}
+				}
+			}
+		}
+		return s
+	}}
+	exits := an.WalkTypestate(fn, stampState(false), h, sc)
+	good := len(exits) > 0
+	why := ""
+	nOK := 0
+	for _, ex := range exits {
+		if ex.ErrNil == 0 {
+			continue
+		}
+		// successful (or unknown) return
+		if an.IsNilConst(an.RetVal(ex.Ret, 0)) {
+			continue
+		}
+		nOK++
+		if !bool(ex.St.(stampState)) {
+			good = false
+			why = "mergeRoots can return a tree at " + c.P.Pos(ex.Ret.Pos()) + " whose Created was not set from this open's time: a handle that continues a single version keeps that version's creation time, every commit through it is stamped with its predecessor's time, and a vacuum with an old cutoff deletes versions that were committed long after it"
+		}
+	}
+	if nOK == 0 {
+		good, why = false, "no successful return found"
+	}
+	c.R.Cond(good, rule, name+": stamps the tree", c.P.Pos(fn.Pos()), "every successful return follows 'Created = when' (or a new empty root built from when)", why)
 }
